@@ -26,7 +26,7 @@ func (c14) ID() string { return "C14" }
 func (c14) Meta(tier string) engine.Meta {
 	return engine.Meta{
 		Level: "model_checking",
-		Rule: "stateless exploration of ALL interleavings of the synchronisation points (atomic type-variable counter, time-zone cache lock / unlock: build-tag hooks) of 2–3 real goroutines under a cooperative scheduler, preemption bound iterated 0,1,2,… to exhaustion (or to the schedule cap, reported); scenarios: two fresh engines compiling polymorphic calls; one initialised engine compiling two / three expressions; one Callable invoked by three threads on each back end (literals, thunks, lazy and polymorphic calls, a shared *val.Env); compile ‖ invoke on one engine; two / three strtotime calls on a zone that is not cached yet. Oracles on every execution: vector-clock race detection over every hooked read / write (happens-before from spawn, lock release→acquire and atomics only — the scheduler's own hand-offs are not edges); every thread's outcome equals its outcome when run alone; replaying a schedule twice gives the same trace. Then a separate FREE-RUNNING pass of the same thread bodies on plain goroutines under `go test -race` (hooks inert): any DATA RACE report is a violation (this covers state no hook names). non-trivial = schedules with at least one preemption",
+		Rule: "stateless exploration of ALL interleavings of the synchronisation points (atomic type-variable counter, time-zone cache lock / unlock: build-tag hooks) of 2–3 real goroutines under a cooperative scheduler, preemption bound iterated 0,1,2,… to exhaustion (or to the schedule cap, reported); scenarios: two fresh engines compiling polymorphic calls; one initialised engine compiling two / three expressions; one Callable invoked by three threads on each back end (literals, thunks, lazy and polymorphic calls, a shared *val.Env); compile ‖ invoke on one engine; two / three strtotime calls on a zone that is not cached yet; three threads evaluating programs that together call every built-in. Oracles on every execution: vector-clock race detection over every hooked read / write (happens-before from spawn, lock release→acquire and atomics only — the scheduler's own hand-offs are not edges); every thread's outcome equals its outcome when run alone; replaying a schedule twice gives the same trace. Then a separate FREE-RUNNING pass of the same thread bodies on plain goroutines under `go test -race` (hooks inert): any DATA RACE report is a violation (this covers state no hook names). non-trivial = schedules with at least one preemption",
 		Bound: "2–3 threads, 1–2 operations each; preemption bound reported per scenario",
 		Assumptions: []string{"sequentially consistent memory; the C code of timelib is opaque to both passes", "CHESS reduction: scheduling at synchronisation operations only is complete when no data race exists, which the vector-clock detector and the -race pass check"},
 	}
@@ -93,6 +93,8 @@ var c14Progs = []string{
 	`second(x, if(x == 1, "one", "other")) + string(x)`,
 	`get(["k": x], "k", 0) + (x > 0 && x < 5 ? 1 : 0)`,
 }
+
+var c14Fresh int
 
 func outcomeOf(v interface{}, err error) string {
 	if err != nil {
@@ -186,6 +188,44 @@ func C14Scenarios() []sched.Scenario {
 		// a different zone per execution index would need a counter; the first execution populates the
 		// cache, later ones take the hit path — both paths are explored across scenarios
 		return []sched.Body{strtotime("Asia/Tokyo"), strtotime("Europe/Paris"), strtotime("Asia/Tokyo")}
+	}})
+	// every built-in, concurrently (hidden process-wide state inside any of them shows in the -race pass)
+	sink := []string{
+		`[abs(-x), round(x + 0.5), ceil(x + 0.2), floor(x + 0.8), max(x, 2), max([x, 2]), min(x, 2), min([2, x]), len([x]), len(["a": x]), len("ab"), x + 2, x - 2, x * 3, 4 / x, 5 % (x + 1), 2 ^ x, -x, +x]`,
+		`[match("a+b" + string(x), "aab1"), match("^é", "é日"), "a" + "b" == "ab", "a" != "b", x == 1, x != 2, x < 2, x <= 1, x > 0, x >= 1, true == true, true != false, !false, x > 0 && x < 3, x < 0 || x > 0, isset(["k": x], "k"), [x] == [1], [x] != [2], ["k": x] == ["k": 1], ["k": x] != ["k": 2]]`,
+		`[string(x), string([x, 2]), string(["k": x]), string({a: x}), if(x > 0, "p", "n"), x > 0 ? "p" : "n", string(get([x], 0, 9)), string(get(["k": x], "z", 9)), string(union([x, 2], [2, 3])), string(intersect([x, 2], [2, 3])), string(diff([x, 2], [2, 3]))]`,
+		`[strtotime("2022-01-02 03:04:05") == '2022-01-02 03:04:05', '2022-01-02' < '2022-01-03', '2022-01-02' <= '2022-01-02', '2022-01-03' > '2022-01-02', '2022-01-03' >= '2022-01-03', '2022-01-02' != '2022-01-03', ('2022-01-03' - '2022-01-02') == 86400]`,
+	}
+	out = append(out, sched.Scenario{Name: "every-builtin-three-threads", Build: func() []sched.Body {
+		mk := func(i int) sched.Body {
+			return func() string {
+				v, err := yae.Eval(sink[i%len(sink)], map[string]interface{}{"x": 1})
+				return outcomeOf(v, err)
+			}
+		}
+		return []sched.Body{mk(0), mk(1), mk(1)}
+	}})
+	out = append(out, sched.Scenario{Name: "every-builtin-three-threads-b", Build: func() []sched.Body {
+		mk := func(i int) sched.Body {
+			return func() string {
+				v, err := yae.Eval(sink[i%len(sink)], map[string]interface{}{"x": 1})
+				return outcomeOf(v, err)
+			}
+		}
+		return []sched.Body{mk(2), mk(3), mk(2)}
+	}})
+	// inputs no earlier execution has seen (caches keyed by input are cold every time)
+	out = append(out, sched.Scenario{Name: "fresh-inputs-every-execution", Build: func() []sched.Body {
+		c14Fresh++
+		k := c14Fresh
+		mk := func(suffix string) sched.Body {
+			return func() string {
+				env := map[string]interface{}{"p": fmt.Sprintf("a+b%d%s", k, suffix), "s": fmt.Sprintf("aab%d%s", k, suffix), "t": fmt.Sprintf("2022-01-02 03:04:%02d", k%60)}
+				v, err := yae.Eval(`[string(match(p, s)), string(len(p) > 3), string(strtotime(t) == strtotime(t))]`, env)
+				return outcomeOf(v, err)
+			}
+		}
+		return []sched.Body{mk(""), mk(""), mk("x")}
 	}})
 	out = append(out, sched.Scenario{Name: "debug-and-eval", Build: func() []sched.Body {
 		return []sched.Body{
